@@ -187,7 +187,8 @@ example : quad (FejerFirst.weights 5) (FejerFirst.points 5) (fun x => (X ^ 4 + X
 /-! ### Fejér-2 (known finding) -/
 
 /-- Full statement for Fejér-2 (degree ≤ n-1 for every n ≥ 2).  **False for the code as it is**:
-see `fejer2_fails_at_2`. -/
+see `fejer2_fails_at_2` (n = 2) and, for every `n`, `Props/C01/Fejer2.lean` (`fejer2_code_not_exact`,
+`fejer2_code_defect`; the rule with the complete series is exact: `fejer2_corrected_exact`). -/
 def fejer2_exact_full : Prop :=
   ∀ n : ℕ, 2 ≤ n → ∀ p : ℝ[X], p.natDegree < n →
     quad (FejerSecond.weights n) (FejerSecond.points n) (fun x => p.eval x)
